@@ -7,7 +7,7 @@ import vlib
 META = {
     "property_id": "C05",
     "level": "proof",
-    "technique": "Coq theorems over the codec layer of the executable genum model (Marshal*/Unmarshal* mirroring the template's control flow: name first, then each parsable trait family in template order; library behaviour enters only as per-document view records) + generator farm under random -json/-yaml/-text/-caseInsensitive/-parsableByTraits combinations: every defined value round-trips through the real encoding/json, encoding.Text*, yaml.v3, and rejection documents are decoded by the real code and judged inside Coq against specification and model",
+    "technique": "Coq theorems over the codec layer of the executable genum model (Marshal*/Unmarshal* mirroring the template's control flow: name first, then each parsable trait family in template order; library behaviour enters only as per-document view records) + generator farm under random -json/-yaml/-text/-caseInsensitive/-parsableByTraits combinations: every defined value round-trips through the real encoding/json, encoding.Text*, yaml.v3, and rejection documents are decoded by the real code and judged inside Coq against specification and model + translator ties: the control skeletons of every function the template emits are regenerated from enumTemplate.gotmpl on each run, shown well-formed by computation (coq/ties/Tie_GEnumSkel.v) and evaluated by the judge ; traits.go kind table and family filters tied semantically (Tie_GEnumTraits.v)",
     "design_ref": "DESIGN.md §4 C05",
     "level_text": "Proof: GEnumProofs.v shows for every definition, option set and defined value that the three encoders emit the primary name and that each decoder maps a document whose library view is that name back to the value (round trip), and that a document none of whose faithful readings (string content, integer value, result of a trait type's own unmarshaler) is a constant name or a parsable trait constant is rejected by all three decoders (Props/C05.v, closed under the global context); the pinned YAML decoder (strconv guards inverted) is refuted by a computed witness. The model is tied to the current source by the farm: definitions as in C04 plus string/integer/named/duration/other-enum trait columns, generated under random codec/option combinations, observed through json.Marshal/Unmarshal, MarshalText/UnmarshalText, yaml.Marshal/Unmarshal.",
     "level_note": "Trusted: Coq kernel + vm_compute; encoding/json, yaml.v3 and strconv enter as recorded per-document views (what string / integer the library extracts, whether it hands the document to the generated method), not modelled; model fidelity checked by correspondence; Go harness. No axioms. Packages generated with -yaml=false do not compile on the pinned template (C13) and are skipped.",
@@ -25,7 +25,8 @@ def features(j):
     if isinstance(ds, dict):
         f["failing"] = j.get("outcome")
     else:
-        f["failing"] = "+".join(sorted({"json_null" if d.get("null") else "document" for d in ds})) or "none"
+        f["failing"] = "+".join(sorted({("json_null" if d["codec"] == "json" else "yaml_nonscalar") if d.get("null") else "document"
+                                        for d in ds})) or "none"
     return f
 
 
@@ -46,7 +47,7 @@ def explain(j):
         if (d.get("from") or "").startswith("value:"):
             exp = "ok:" + d["from"][6:]
         elif d.get("null"):
-            exp = "err"   # the literal null holds neither a name nor a trait value
+            exp = "err"   # the JSON literal null / a YAML sequence or mapping holds neither a name nor a trait value
         elif s is not None and s in names:
             exp = "ok:%d" % names[s]
         elif s is not None and o["ci"] and s.lower() in lnames:
@@ -54,7 +55,9 @@ def explain(j):
         else:
             cells = [cl for c in e["consts"] for cl in (c.get("cells") or [])]
             holds = any((cl["kind"] == "str" and cl.get("str", "") == s) or
-                        (cl["kind"] == "int" and cl.get("int") in (d.get("u64"), d.get("i64"))) for cl in cells)
+                        (cl["kind"] == "int" and cl.get("int") in (d.get("u64"), d.get("i64"))) or
+                        (cl["kind"] == "bool" and d.get("bool") is not None and bool(d["bool"]) == bool(cl.get("bool")))
+                        for cl in cells)
             if not holds and not any(n.get("ok") for n in d.get("native") or []):
                 exp = "err"
         if exp is not None and d["res"] != exp:
@@ -70,24 +73,29 @@ def run(ctx):
         "encoding/json, gopkg.in/yaml.v3, strconv: recorded per document as views (string / uint64 / int64 readings, own-unmarshaler results, whether the generated method was invoked)"]
     ctx.assumptions = [
         "definitions as in C04; trait columns of string / integer / locally named / time.Duration / other generated enum types",
-        "documents are JSON values, text, YAML scalars that the library hands to the generated Unmarshal* method (YAML null and empty documents never reach it and are not judged)",
+        "documents are JSON values (scalars, null, arrays, objects), text, YAML scalars / sequences / mappings that the library hands to the generated Unmarshal* method",
+        "SCOPE DECISION: YAML `null`, `~` and the empty document never reach UnmarshalYAML — yaml.v3 leaves the target untouched and returns nil; this is behaviour of the library, not of the generated decoder, cannot be changed from generated code, and is not judged (such documents are recorded with called = false and counted in documents_not_reaching_decoder)",
+        "floating-point trait types (float32/float64 families of the template) are outside the modelled space: their blocks appear in the skeletons, a definition with such a column is Unsupported in the model and never generated by the farm",
+        "int and uint are 64 bits wide (conversion model conv_int); strings.ToLower as in C04",
         "option combinations without -yaml are observed only once the C13 repair (IsEnum outside the YAML block) is in the tree",
     ]
     ctx.obligations_or_violation()
     if not gl.build_judge(ctx):
         return
+    gl.use_skeletons(ctx)
     quick = ctx.tier == "quick"
     terms, jsons, err = gl.run_batches(ctx, "c05", 26, 8, 75)
     if err:
         ctx.report({"unchecked": "generator farm run against the current tree", "detail": err},
                    {"kind": "harness"}, failing_input=False)
         return
-    bad, nt, err = ctx.judge_cases(gl.HEADER, CASE_TYPE, JUDGE, terms, shard=6 if quick else 20,
+    bad, nt, err = ctx.judge_cases(gl.header_of(ctx), CASE_TYPE, gl.judge_of(ctx, JUDGE), terms, shard=6 if quick else 20,
                                    nontrivial="c05_nontrivial")
     if err:
         ctx.report({"unchecked": "in-kernel evaluation of the correspondence", "detail": err},
                    {"kind": "coq_eval"}, failing_input=False)
         return
+    bad = gl.split_codes(ctx, jsons, bad)
     gl.report_all(ctx, "c05", CASE_TYPE, JUDGE, jsons, bad, features, explain, widen_n=40, shard=6, maxlist=12)
     docs = [d for j in jsons for d in (j["obs"].get("docs") or [])]
     skipped = [j for j in jsons if j["outcome"] == "compile_error" and not j["file"]["opts"]["yaml"]]
